@@ -173,15 +173,21 @@ int shp_solve_reuse(void *d, void **const_tab, void **var_tab, uint32_t L)
 #ifdef ML_DECODING
 	static of_linear_binary_code_cb_t cb;
 	static int init = 0;
+	static size_t cap = 0;
 	of_mod2dense *m = (of_mod2dense *) d;
 	int st;
+	size_t need = (size_t) of_mod2dense_cols(m) + of_mod2dense_rows(m) + 1;
 	if (!init) {
 		memset(&cb, 0, sizeof(cb));
-		cb.tmp_tab_symbols = (void **) malloc(sizeof(void *) * 4096);
 #ifdef OF_DEBUG
 		cb.stats_xor = (of_symbol_stats_op_t *) calloc(1, sizeof(of_symbol_stats_op_t));
 #endif
 		init = 1;
+	}
+	if (need > cap) {	/* as the decoders size it: one slot per symbol of the system; grown, never shrunk */
+		free(cb.tmp_tab_symbols);
+		cap = need > 4096 ? need : 4096;
+		cb.tmp_tab_symbols = (void **) malloc(sizeof(void *) * cap);
 	}
 	cb.encoding_symbol_length = L;
 	cb.nb_source_symbols = of_mod2dense_cols(m);
